@@ -445,7 +445,7 @@ func c04Typestate(w *World, r *Report) {
 			continue
 		}
 		nst := 0
-		for fn := range allModuleFuncs(w, w.SSA()) {
+		for _, fn := range sortedModuleFuncs(w, w.SSA()) {
 			allInstrs(fn, func(in ssa.Instruction) {
 				st, ok := in.(*ssa.Store)
 				if !ok {
@@ -965,7 +965,7 @@ func c04Correlation(w *World, r *Report, sites []connectSite) {
 		r.Undecided("R04.5", "anchor", "-", "anchor unresolved: server.AcceptConnection")
 		return
 	}
-	for fn := range allModuleFuncs(w, w.SSA()) {
+	for _, fn := range sortedModuleFuncs(w, w.SSA()) {
 		for _, c := range callsIn(fn) {
 			if sCallee(c) != acc {
 				continue
@@ -1006,7 +1006,7 @@ func c04ServerFlag(w *World, r *Report, key, pos string, flag *types.Var) {
 	plain, tlsUse := 0, 0
 	bad := ""
 	isFlag := func(v ssa.Value) bool { return isLoadOfField(v, flag) }
-	for fn := range allModuleFuncs(w, w.SSA()) {
+	for _, fn := range sortedModuleFuncs(w, w.SSA()) {
 		for _, c := range callsIn(fn) {
 			call, ok := c.(*ssa.Call)
 			if !ok {
@@ -1072,7 +1072,7 @@ func c04ServerFlag(w *World, r *Report, key, pos string, flag *types.Var) {
 	}
 	// who writes the flag: only Startup methods
 	var writers []string
-	for fn := range allModuleFuncs(w, w.SSA()) {
+	for _, fn := range sortedModuleFuncs(w, w.SSA()) {
 		allInstrs(fn, func(in ssa.Instruction) {
 			if st, ok := in.(*ssa.Store); ok {
 				if fa, ok := st.Addr.(*ssa.FieldAddr); ok && fieldVarOf(fa) == flag {
@@ -1161,7 +1161,7 @@ func c04CapturedFlag(w *World, r *Report, key, pos string, fn *ssa.Function, c s
 			}
 		}
 		ncall := 0
-		for caller := range allModuleFuncs(w, w.SSA()) {
+		for _, caller := range sortedModuleFuncs(w, w.SSA()) {
 			for _, c2 := range callsIn(caller) {
 				if c2.Common().StaticCallee() != fn || pidx < 0 || pidx >= len(c2.Common().Args) {
 					continue
@@ -1352,7 +1352,7 @@ func c04MustSecurePlumbing(w *World, r *Report) {
 	}
 	nst := 0
 	bad := ""
-	for fn := range allModuleFuncs(w, w.SSA()) {
+	for _, fn := range sortedModuleFuncs(w, w.SSA()) {
 		allInstrs(fn, func(in ssa.Instruction) {
 			st, ok := in.(*ssa.Store)
 			if !ok {
@@ -1383,7 +1383,7 @@ func c04MustSecurePlumbing(w *World, r *Report) {
 	ui := w.Interface("internal/client/upstream", "Upstream")
 	ncall := 0
 	bad2 := ""
-	for fn := range allModuleFuncs(w, w.SSA()) {
+	for _, fn := range sortedModuleFuncs(w, w.SSA()) {
 		if recvNamed(fnObj(fn)) != ups {
 			continue
 		}
